@@ -39,9 +39,304 @@ Proof.
   change GenLL.LL_CONNECTION_PARAM_REQ with 15.
   destruct Ho as [-> | [-> | ->]]; cbn [N.eqb Pos.eqb negb orb andb];
     destruct (byte b 1 =? 15); cbn [negb orb andb];
+    try change (pr (set_proc_timeout s 0)) with (pr s);
     try destruct (cpr_running (pr s) && cpr_sig (pr s)) eqn:ER;
     match goal with |- context [push_event c ?X ?e] => destruct (push_event_form c X e) as [r ->] end;
     exists r;
     first [ exists (set_cpr_running (set_cpr_sig (pr s) false) false); split; [reflexivity | unfold pr_same; cbn; repeat split; reflexivity]
           | exists (pr s); split; [reflexivity | unfold pr_same; repeat split; reflexivity] ].
 Qed.
+
+Definition Post (c : cfg) (s : lstate_t) (m : mon27) (acc : list expect)
+                (s' : lstate_t) (it : list item) (res : ll_result) (m' : mon27) (acc' : list expect) (p : pres) : Prop :=
+  match p with
+  | PStop => True
+  | PClosed => res = DoDisconnect
+  | PGo => res = GoAhead /\ it = [] /\ PR c s' m' /\ sframe s s' /\ mframe m m'
+           /\ (ver_received (pr s) = true -> ver_received (pr s') = true)
+           /\ (proc_timeout s' = proc_timeout s \/ proc_timeout s' = 0)
+           /\ exists new accn, unaired s' = unaired s ++ new /\ acc' = acc ++ accn /\ Matches c accn (ctrl new) /\ vok s accn
+                               /\ (nver accn = 1%nat -> ver_received (pr s') = true)
+  end.
+
+Lemma Post_here c s m acc : PR c s m -> Post c s m acc s [] GoAhead m acc PGo.
+Proof.
+  intros H. cbn. split; [reflexivity|]. split; [reflexivity|]. split; [exact H|]. split; [apply sframe_refl|]. split; [apply mframe_refl|].
+  split; [auto|]. split; [left; reflexivity|].
+  exists [], []. rewrite !app_nil_r. split; [reflexivity|]. split; [reflexivity|]. split; [constructor|].
+  unfold vok. cbn. split; [split; [lia|discriminate]|discriminate].
+Qed.
+
+(* one PDU was processed (state s2, monitor m2, expectations ek for the PDUs newk), the rest is processed from there *)
+Lemma Post_compose c s m acc s2 m2 ek newk s' it res m' acc' p :
+  sframe s s2 -> mframe m m2 -> unaired s2 = unaired s ++ newk -> Matches c ek (ctrl newk) ->
+  ((nver ek = 0%nat /\ ver_received (pr s2) = ver_received (pr s)) \/ (nver ek = 1%nat /\ ver_received (pr s) = false /\ ver_received (pr s2) = true)) ->
+  (proc_timeout s2 = proc_timeout s \/ proc_timeout s2 = 0) ->
+  Post c s2 m2 (acc ++ ek) s' it res m' acc' p -> Post c s m acc s' it res m' acc' p.
+Proof.
+  intros F1 F2 U M V T H. destruct p; cbn in *; auto.
+  destruct H as (H1 & H2 & H3 & H4 & H5 & Hmono & Ht & new & accn & H6 & H7 & H8 & (H9 & H10) & H11).
+  split; [exact H1|]. split; [exact H2|]. split; [exact H3|]. split; [eapply sframe_trans; eauto|]. split; [eapply mframe_trans; eauto|].
+  split; [|split].
+  - intros E. apply Hmono. destruct V as [[V1 V2]|(V1 & V2 & V3)]; congruence.
+  - destruct Ht as [Ht|Ht]; [|right; exact Ht]. destruct T as [T|T]; [left|right]; congruence.
+  - exists (newk ++ new), (ek ++ accn). rewrite H6, U, H7, !app_assoc. split; [reflexivity|]. split; [reflexivity|]. unfold vok in *. split; [|split; [split|]].
+    + unfold Matches. rewrite ctrl_app. apply Forall2_app; assumption.
+    + rewrite nver_app. destruct V as [[V1 V2]|(V1 & V2 & V3)]; [lia|].
+      destruct (Nat.eq_dec (nver accn) 1) as [E|E]; [specialize (H10 E); congruence|lia].
+    + rewrite nver_app. intros E. destruct V as [[V1 V2]|(V1 & V2 & V3)]; [|exact V2].
+      rewrite <- V2. apply H10. lia.
+    + rewrite nver_app. intros E. destruct V as [[V1 V2]|(V1 & V2 & V3)]; [apply H11; lia|apply Hmono; exact V3].
+Qed.
+
+Definition popS (s : lstate_t) (rest : list pdu) : lstate_t := upd_bf s (fun b => set_rxq b rest).
+
+Lemma after_nocommit sX rest :
+  stopped (bf sX) = false -> WFb sX ->
+  let s2 := popS sX rest in
+  s2 = set_bf sX (bf s2) /\ rxq (bf s2) = rest /\ txa s2 = txa sX /\ stopped (bf s2) = false /\ WFb s2 /\ unaired s2 = unaired sX.
+Proof. intros St W. cbn zeta. unfold popS. repeat split; try reflexivity; assumption. Qed.
+
+Lemma after_commit sX p rest :
+  stopped (bf sX) = false -> WFb sX ->
+  let s2 := popS (commit sX p) rest in
+  s2 = set_bf sX (bf s2) /\ rxq (bf s2) = rest /\ txa s2 = txa sX /\ stopped (bf s2) = false /\ WFb s2 /\ unaired s2 = unaired sX ++ [p].
+Proof.
+  intros St W. cbn zeta. destruct (LLProofsC28Air.unaired_commit sX p W St) as (U & W2 & S2 & T2).
+  unfold popS. rewrite (commit_eq sX p St) in *. repeat split; try reflexivity; assumption.
+Qed.
+
+Lemma rx_ok_tail p l : rx_ok (p :: l) -> rx_ok l.
+Proof. intros H. inversion H; assumption. Qed.
+Lemma rx_ok_head llid body l : rx_ok ((llid, body) :: l) -> (llid = 2 \/ llid = 3) /\ body <> [] /\ bytes_ok body.
+Proof. intros H. inversion H as [|? ? [H1 [H2 H3]] ?]; subst. cbn [fst snd] in *. repeat split; auto. lia. Qed.
+
+Lemma spec_is_ctrl c ver body :
+  bytes_ok body -> spec_kind (c_phy c) (c_enc c) ver (byte body 0) (N.of_nat (length body))
+                   = ctrl_kind_b (c_phy c) (c_enc c) ver (byte body 0) (N.of_nat (length body)).
+Proof. intros B. symmetry. apply (ctrl_kind_is_spec c). apply LLProofsC21.byte_lt. exact B. Qed.
+
+Section Sim.
+Variable c : cfg.
+Hypothesis Hc : cfg_ok27 c = true.
+
+Lemma process_sim : forall fuel s m cbs acc s' it res m' acc' p,
+  PR c s m ->
+  handle_received_data fuel c s = (s', it, res) -> process27 fuel c m cbs acc = (m', acc', p) ->
+  Post c s m acc s' it res m' acc' p.
+Proof.
+  induction fuel as [|fuel IH]; intros s m cbs acc s' it res m' acc' p HPR Hs Hp.
+  { cbn in Hs, Hp. inversion Hs; inversion Hp; subst. apply Post_here. exact HPR. }
+  pose proof HPR as (P1 & P2 & P3 & P4 & P5 & P6 & P7 & P8 & P9 & P10 & P11 & P12).
+  cbn [handle_received_data] in Hs. cbn [process27] in Hp.
+  rewrite P8 in Hs. rewrite P1 in Hp.
+  destruct (rxq (bf s)) as [|[llid body] rest] eqn:ERX.
+  { inversion Hs; inversion Hp; subst. apply Post_here. exact HPR. }
+  destruct (rx_ok_head _ _ _ P12) as (Hll & Hne & Hbo). pose proof (rx_ok_tail _ _ P12) as Hrest.
+  change GenLL.ll_control_pdu_code with 3 in Hs. change GenLL.lld_data_pdu_code with 2 in Hs.
+  unfold tx_buffer_available in Hs. fold (txa s) in Hs. rewrite <- P2 in Hs.
+  destruct Hll as [-> | ->]; cbn [N.eqb Pos.eqb] in Hs, Hp.
+  - (* L2CAP *)
+    rewrite P9 in Hs. cbn [negb andb] in Hs.
+    assert (EL : match (if c_enc c then l2cap_reply_enc (is_enc (sc s)) body else l2cap_reply body) with L2Drop => true | L2Reply _ => false end
+                 = match l2cap_reply body with L2Drop => true | L2Reply _ => false end)
+      by (destruct (c_enc c); [apply l2class_enc|reflexivity]).
+    destruct (after_nocommit s rest P10 P11) as (A1 & A2 & A3 & A4 & A5 & A6).
+    destruct (if c_enc c then _ else _) as [|r] eqn:EM; destruct (l2cap_reply body) as [|r'] eqn:EM'; try discriminate.
+    + eapply Post_compose with (s2 := popS s rest) (m2 := set_m_rx m rest) (ek := []) (newk := []);
+        [unfold sframe; repeat split; reflexivity | unfold mframe; repeat split; reflexivity | rewrite app_nil_r; exact A6 | constructor
+        | left; split; reflexivity | left; reflexivity | ].
+      rewrite app_nil_r. eapply IH; [|exact Hs|exact Hp].
+      unfold PR. repeat split; try assumption; try reflexivity; try (rewrite ?A3; cbn; congruence).
+    + destruct (m_txa m) eqn:ET.
+      * destruct r as [f|].
+        -- destruct (after_commit s (2, f) rest P10 P11) as (B1 & B2 & B3 & B4 & B5 & B6).
+           eapply Post_compose with (s2 := popS (commit s (2, f)) rest) (m2 := set_m_rx m rest) (ek := []) (newk := [(2, f)]);
+             [rewrite B1; unfold sframe; repeat split; reflexivity | unfold mframe; repeat split; reflexivity | exact B6 | constructor
+             | left; split; [reflexivity|rewrite B1; reflexivity] | left; rewrite B1; reflexivity | ].
+           rewrite app_nil_r. eapply IH; [|exact Hs|exact Hp].
+           unfold PR. rewrite B1 at 3 4 5 6 7 8 9. cbn [pr set_bf used_features proc_timeout deferred st].
+           repeat split; try assumption; try reflexivity; try congruence. rewrite B3. cbn. congruence.
+        -- eapply Post_compose with (s2 := popS s rest) (m2 := set_m_rx m rest) (ek := []) (newk := []);
+             [unfold sframe; repeat split; reflexivity | unfold mframe; repeat split; reflexivity | rewrite app_nil_r; exact A6 | constructor
+             | left; split; reflexivity | left; reflexivity | ].
+           rewrite app_nil_r. eapply IH; [|exact Hs|exact Hp].
+           unfold PR. repeat split; try assumption; try reflexivity; try (rewrite ?A3; cbn; congruence).
+      * inversion Hs; inversion Hp; subst. apply Post_here. exact HPR.
+  - (* control PDU *)
+    destruct (m_txa m) eqn:ET; cbn [negb] in Hp; [|inversion Hs; inversion Hp; subst; apply Post_here; exact HPR].
+    unfold handle_ll_control in Hs. rewrite (opc_nonempty body Hne) in Hs. unfold ctrl_kind in Hs.
+    rewrite (spec_is_ctrl c _ body Hbo), P3 in Hp.
+    pose proof (kind_facts (c_phy c) (c_enc c) (ver_received (pr s)) (byte body 0) (N.of_nat (length body)) _ eq_refl) as KF.
+    destruct (ctrl_kind_b (c_phy c) (c_enc c) (ver_received (pr s)) (byte body 0) (N.of_nat (length body))) eqn:K;
+      try (inversion Hp; subst; exact I).
+    + (* KTerminate *) inversion Hp; subst. cbn in Hs. inversion Hs. reflexivity.
+    + (* KVersion *)
+      cbn beta iota zeta in Hs. unfold commit_ctrl in Hs. change GenLL.ll_control_pdu_code with 3 in Hs.
+      rewrite (P4 KF) in Hp.
+      set (s2 := if byte body 1 <=? GenLL.LL_VERSION_40 then clear_cpr_feature (set_proc_timeout s 0) else set_proc_timeout s 0) in *.
+      destruct (push_event_form c s2 (EvVersion (byte body 1) (rd16 body 2) (rd16 body 4))) as [rr Er]. rewrite Er in Hs.
+      set (sX := upd_pr (set_ring s2 rr) (fun p => set_ver_received p true)) in *.
+      fold (popS (commit sX (3, version_ind_pdu)) rest) in Hs.
+      destruct (handle_received_data fuel c (popS (commit sX (3, version_ind_pdu)) rest)) as [[s3 it3] r3] eqn:E3. inversion Hs; subst s' it res; clear Hs.
+      assert (St : stopped (bf sX) = false) by (subst sX s2; destruct (_ <=? _); exact P10).
+      assert (Wx : WFb sX) by (subst sX s2; destruct (_ <=? _); exact P11).
+      destruct (after_commit sX (3, version_ind_pdu) rest St Wx) as (B1 & B2 & B3 & B4 & B5 & B6).
+      match type of Hp with process27 fuel c (set_m_rx ?M rest) cbs ?A = _ =>
+        eapply Post_compose with (s2 := popS (commit sX (3, version_ind_pdu)) rest) (m2 := set_m_rx M rest)
+                                 (ek := [EExact [12; GenLL.LL_VERSION_NR; GenLL.company_identifier mod 256; GenLL.company_identifier / 256; 0; 0]])
+                                 (newk := [(3, version_ind_pdu)]) end.
+      * rewrite B1. subst sX s2. unfold sframe. destruct (_ <=? _); repeat split; reflexivity.
+      * unfold mframe. destruct (_ <=? _); repeat split; reflexivity.
+      * rewrite B6. subst sX s2. destruct (_ <=? _); reflexivity.
+      * constructor; [reflexivity|constructor].
+      * right. split; [reflexivity|]. split; [exact KF|]. rewrite B1. reflexivity.
+      * right. rewrite B1. subst sX s2. destruct (_ <=? _); reflexivity.
+      * eapply IH; [|exact E3|exact Hp].
+        unfold PR. rewrite B1 at 3 4 5 6 7 8 9. rewrite B3.
+        subst sX s2. unfold cpr_feature, clear_cpr_feature. destruct (_ <=? _);
+          cbn [pr set_bf upd_pr set_pr set_ring used_features proc_timeout deferred st set_used_features set_proc_timeout ver_received set_ver_received
+               m_rx m_txa m_ver_rcv m_ver_sent m_used m_timer m_owner set_m_rx set_m_ver_rcv set_m_used set_m_timer];
+          repeat split; try assumption; try reflexivity; try congruence; try discriminate; try (unfold txa in *; cbn [bf upd_pr set_pr set_ring set_used_features set_proc_timeout]; congruence).
+    + (* KPing *)
+      cbn beta iota zeta in Hs. unfold commit_ctrl in Hs. change GenLL.ll_control_pdu_code with 3 in Hs. change GenLL.LL_PING_RSP with 19 in Hs.
+      fold (popS (commit s (3, [19])) rest) in Hs.
+      destruct (handle_received_data fuel c (popS (commit s (3, [19])) rest)) as [[s3 it3] r3] eqn:E3. inversion Hs; subst; clear Hs.
+      destruct (after_commit s (3, [19]) rest P10 P11) as (B1 & B2 & B3 & B4 & B5 & B6).
+      eapply Post_compose with (s2 := popS (commit s (3, [19])) rest) (m2 := set_m_rx m rest) (ek := [EExact [19]]) (newk := [(3, [19])]);
+        [rewrite B1; unfold sframe; repeat split; reflexivity | unfold mframe; repeat split; reflexivity | exact B6
+        | repeat constructor | left; split; [reflexivity|rewrite B1; reflexivity] | left; rewrite B1; reflexivity | ].
+      eapply IH; [|exact E3|exact Hp].
+      unfold PR. rewrite B1 at 3 4 5 6 7 8 9. cbn [pr set_bf used_features proc_timeout deferred st].
+      repeat split; try assumption; try reflexivity; try congruence. rewrite B3. cbn. congruence.
+    + (* KFeature *)
+      cbn beta iota zeta in Hs. unfold commit_ctrl in Hs. change GenLL.ll_control_pdu_code with 3 in Hs. change GenLL.LL_FEATURE_RSP with 9 in Hs.
+      set (u := N.land (used_features s) (rd16 body 1)) in *.
+      destruct (push_event_form c (set_used_features s u) (EvFeatures (slice body 1 8))) as [rr Er]. rewrite Er in Hs.
+      set (sX := set_ring (set_used_features s u) rr) in *.
+      set (bb := [9; lo8 (used_features (set_used_features s u)); hi8 (supported_features c); 0; 0; 0; 0; 0; 0]) in *.
+      fold (popS (commit sX (3, bb)) rest) in Hs.
+      destruct (handle_received_data fuel c (popS (commit sX (3, bb)) rest)) as [[s3 it3] r3] eqn:E3. inversion Hs; subst s' it res; clear Hs.
+      destruct (after_commit sX (3, bb) rest P10 P11) as (B1 & B2 & B3 & B4 & B5 & B6).
+      rewrite P5 in Hp. fold u in Hp.
+      eapply Post_compose with (s2 := popS (commit sX (3, bb)) rest) (m2 := set_m_rx (set_m_used m u) rest) (ek := [EFeature (u mod 256)]) (newk := [(3, bb)]);
+        [rewrite B1; unfold sframe; repeat split; reflexivity | unfold mframe; repeat split; reflexivity | exact B6
+        | constructor; [apply bytes_eqb_refl|constructor] | left; split; [reflexivity|rewrite B1; reflexivity] | left; rewrite B1; reflexivity | ].
+      eapply IH; [|exact E3|exact Hp].
+      unfold PR. rewrite B1 at 3 4 5 6 7 8 9. cbn [pr set_bf used_features proc_timeout deferred st sX set_ring set_used_features].
+      repeat split; try assumption; try reflexivity; try congruence. rewrite B3. change (txa sX) with (txa s). cbn. congruence.
+    + (* KUnknownRsp *)
+      cbn beta iota zeta in Hs.
+      destruct (handle_reject_form c s (byte body 0) body) as (rr & prx & Ef & Ps); [rewrite KF; auto|]. rewrite Ef in Hs. clear Ef.
+      rewrite KF in Hs, Hp. rewrite P7, andb_false_r, orb_false_r in Hp. cbn [N.eqb Pos.eqb orb andb] in Hs, Hp.
+      destruct Ps as (Q1 & Q2 & Q3 & Q4 & Q5 & Q6 & Q7 & Q8).
+      match type of Hs with context [set_ring ?X rr] => set (sX := set_ring X rr) in * end.
+      fold (popS sX rest) in Hs.
+      destruct (handle_received_data fuel c (popS sX rest)) as [[s3 it3] r3] eqn:E3. inversion Hs; subst s' it res; clear Hs.
+      destruct (after_nocommit sX rest P10 P11) as (A1 & A2 & A3 & A4 & A5 & A6).
+      match type of Hp with process27 fuel c (set_m_rx ?M rest) cbs ?A = _ =>
+        eapply Post_compose with (s2 := popS sX rest) (m2 := set_m_rx M rest) (ek := []) (newk := []) end.
+      * subst sX. unfold sframe. cbn. repeat split; try reflexivity; assumption.
+      * unfold mframe. destruct (byte body 1 =? 15); repeat split; reflexivity.
+      * rewrite app_nil_r. exact A6.
+      * constructor.
+      * left. split; [reflexivity|]. subst sX. cbn. exact Q4.
+      * subst sX. unfold popS. cbn. destruct (byte body 1 =? 15); auto.
+      * rewrite app_nil_r. eapply IH; [|exact E3|exact Hp].
+        unfold PR. subst sX. unfold popS, cpr_feature. destruct (byte body 1 =? 15);
+          cbn [pr bf upd_bf set_bf set_pr set_ring used_features proc_timeout deferred st set_used_features set_proc_timeout rxq set_rxq stopped
+               m_rx m_txa m_ver_rcv m_ver_sent m_used m_timer m_owner set_m_rx set_m_ver_rcv set_m_used set_m_timer];
+          repeat split; try assumption; try reflexivity; try congruence; try (unfold txa in *; cbn [bf upd_bf set_bf set_pr set_ring set_used_features set_proc_timeout tx_avail set_rxq]; congruence); try (rewrite Q4; exact P4).
+    + (* KRejectInd *)
+      cbn beta iota zeta in Hs.
+      destruct (handle_reject_form c s (byte body 0) body) as (rr & prx & Ef & Ps); [rewrite KF; auto|]. rewrite Ef in Hs. clear Ef.
+      rewrite KF in Hs, Hp. rewrite P7, andb_false_r, orb_false_r in Hp. cbn [N.eqb Pos.eqb orb andb] in Hs, Hp.
+      destruct Ps as (Q1 & Q2 & Q3 & Q4 & Q5 & Q6 & Q7 & Q8).
+      match type of Hs with context [set_ring ?X rr] => set (sX := set_ring X rr) in * end.
+      fold (popS sX rest) in Hs.
+      destruct (handle_received_data fuel c (popS sX rest)) as [[s3 it3] r3] eqn:E3. inversion Hs; subst s' it res; clear Hs.
+      destruct (after_nocommit sX rest P10 P11) as (A1 & A2 & A3 & A4 & A5 & A6).
+      match type of Hp with process27 fuel c (set_m_rx ?M rest) cbs ?A = _ =>
+        eapply Post_compose with (s2 := popS sX rest) (m2 := set_m_rx M rest) (ek := []) (newk := []) end.
+      * subst sX. unfold sframe. cbn. repeat split; try reflexivity; assumption.
+      * unfold mframe. destruct (byte body 1 =? 15); repeat split; reflexivity.
+      * rewrite app_nil_r. exact A6.
+      * constructor.
+      * left. split; [reflexivity|]. subst sX. cbn. exact Q4.
+      * subst sX. unfold popS. cbn. destruct (byte body 1 =? 15); auto.
+      * rewrite app_nil_r. eapply IH; [|exact E3|exact Hp].
+        unfold PR. subst sX. unfold popS, cpr_feature. destruct (byte body 1 =? 15);
+          cbn [pr bf upd_bf set_bf set_pr set_ring used_features proc_timeout deferred st set_used_features set_proc_timeout rxq set_rxq stopped
+               m_rx m_txa m_ver_rcv m_ver_sent m_used m_timer m_owner set_m_rx set_m_ver_rcv set_m_used set_m_timer];
+          repeat split; try assumption; try reflexivity; try congruence; try (unfold txa in *; cbn [bf upd_bf set_bf set_pr set_ring set_used_features set_proc_timeout tx_avail set_rxq]; congruence); try (rewrite Q4; exact P4).
+    + (* KRejectExt *)
+      cbn beta iota zeta in Hs.
+      destruct (handle_reject_form c s (byte body 0) body) as (rr & prx & Ef & Ps); [rewrite KF; auto|]. rewrite Ef in Hs. clear Ef.
+      rewrite KF in Hs, Hp. rewrite P7, andb_false_r, orb_false_r in Hp. cbn [N.eqb Pos.eqb orb andb] in Hs, Hp.
+      destruct Ps as (Q1 & Q2 & Q3 & Q4 & Q5 & Q6 & Q7 & Q8).
+      match type of Hs with context [set_ring ?X rr] => set (sX := set_ring X rr) in * end.
+      fold (popS sX rest) in Hs.
+      destruct (handle_received_data fuel c (popS sX rest)) as [[s3 it3] r3] eqn:E3. inversion Hs; subst s' it res; clear Hs.
+      destruct (after_nocommit sX rest P10 P11) as (A1 & A2 & A3 & A4 & A5 & A6).
+      match type of Hp with process27 fuel c (set_m_rx ?M rest) cbs ?A = _ =>
+        eapply Post_compose with (s2 := popS sX rest) (m2 := set_m_rx M rest) (ek := []) (newk := []) end.
+      * subst sX. unfold sframe. cbn. repeat split; try reflexivity; assumption.
+      * unfold mframe. destruct (byte body 1 =? 15); repeat split; reflexivity.
+      * rewrite app_nil_r. exact A6.
+      * constructor.
+      * left. split; [reflexivity|]. subst sX. cbn. exact Q4.
+      * subst sX. unfold popS. cbn. destruct (byte body 1 =? 15); auto.
+      * rewrite app_nil_r. eapply IH; [|exact E3|exact Hp].
+        unfold PR. subst sX. unfold popS, cpr_feature. destruct (byte body 1 =? 15);
+          cbn [pr bf upd_bf set_bf set_pr set_ring used_features proc_timeout deferred st set_used_features set_proc_timeout rxq set_rxq stopped
+               m_rx m_txa m_ver_rcv m_ver_sent m_used m_timer m_owner set_m_rx set_m_ver_rcv set_m_used set_m_timer];
+          repeat split; try assumption; try reflexivity; try congruence; try (unfold txa in *; cbn [bf upd_bf set_bf set_pr set_ring set_used_features set_proc_timeout tx_avail set_rxq]; congruence); try (rewrite Q4; exact P4).
+    + (* KCpr *)
+      cbn beta iota zeta in Hs.
+      destruct (cpr_answer c s body Hc) as (r & Er & Ok); [lia|]. rewrite Er in Hs.
+      unfold commit_ctrl in Hs. change GenLL.ll_control_pdu_code with 3 in Hs.
+      fold (popS (commit s (3, r)) rest) in Hs.
+      destruct (handle_received_data fuel c (popS (commit s (3, r)) rest)) as [[s3 it3] r3] eqn:E3. inversion Hs; subst s' it res; clear Hs.
+      assert (Hp' : process27 fuel c (set_m_rx m rest) cbs (acc ++ [ECpr body]) = (m', acc', p))
+        by (unfold cfg_ok27 in Hc; destruct (c_cpr c); [exact Hp|exact Hp|discriminate]).
+      destruct (after_commit s (3, r) rest P10 P11) as (B1 & B2 & B3 & B4 & B5 & B6).
+      eapply Post_compose with (s2 := popS (commit s (3, r)) rest) (m2 := set_m_rx m rest) (ek := [ECpr body]) (newk := [(3, r)]);
+        [rewrite B1; unfold sframe; repeat split; reflexivity | unfold mframe; repeat split; reflexivity | exact B6
+        | constructor; [exact Ok|constructor] | left; split; [reflexivity|rewrite B1; reflexivity] | left; rewrite B1; reflexivity | ].
+      eapply IH; [|exact E3|exact Hp'].
+      unfold PR. rewrite B1 at 3 4 5 6 7 8 9. cbn [pr set_bf used_features proc_timeout deferred st].
+      repeat split; try assumption; try reflexivity; try congruence. rewrite B3. cbn. congruence.
+    + (* KPhyReq *)
+      cbn beta iota zeta in Hs. unfold commit_ctrl in Hs. change GenLL.ll_control_pdu_code with 3 in Hs. change GenLL.LL_PHY_RSP with 23 in Hs.
+      fold (popS (commit s (3, [23; 3; 3])) rest) in Hs.
+      destruct (handle_received_data fuel c (popS (commit s (3, [23; 3; 3])) rest)) as [[s3 it3] r3] eqn:E3. inversion Hs; subst; clear Hs.
+      destruct (after_commit s (3, [23; 3; 3]) rest P10 P11) as (B1 & B2 & B3 & B4 & B5 & B6).
+      eapply Post_compose with (s2 := popS (commit s (3, [23; 3; 3])) rest) (m2 := set_m_rx m rest) (ek := [EExact [23; 3; 3]]) (newk := [(3, [23; 3; 3])]);
+        [rewrite B1; unfold sframe; repeat split; reflexivity | unfold mframe; repeat split; reflexivity | exact B6
+        | constructor; [apply bytes_eqb_refl|constructor] | left; split; [reflexivity|rewrite B1; reflexivity] | left; rewrite B1; reflexivity | ].
+      eapply IH; [|exact E3|exact Hp].
+      unfold PR. rewrite B1 at 3 4 5 6 7 8 9. cbn [pr set_bf used_features proc_timeout deferred st].
+      repeat split; try assumption; try reflexivity; try congruence. rewrite B3. cbn. congruence.
+    + (* KUnknown *)
+      cbn beta iota zeta in Hs. unfold commit_ctrl in Hs. change GenLL.ll_control_pdu_code with 3 in Hs. change GenLL.LL_UNKNOWN_RSP with 7 in Hs.
+      fold (popS (commit s (3, [7; byte body 0])) rest) in Hs.
+      destruct (handle_received_data fuel c (popS (commit s (3, [7; byte body 0])) rest)) as [[s3 it3] r3] eqn:E3. inversion Hs; subst; clear Hs.
+      destruct (after_commit s (3, [7; byte body 0]) rest P10 P11) as (B1 & B2 & B3 & B4 & B5 & B6).
+      eapply Post_compose with (s2 := popS (commit s (3, [7; byte body 0])) rest) (m2 := set_m_rx m rest) (ek := [EExact [7; byte body 0]]) (newk := [(3, [7; byte body 0])]);
+        [rewrite B1; unfold sframe; repeat split; reflexivity | unfold mframe; repeat split; reflexivity | exact B6
+        | constructor; [apply bytes_eqb_refl|constructor] | left; split; [reflexivity|rewrite B1; reflexivity] | left; rewrite B1; reflexivity | ].
+      eapply IH; [|exact E3|exact Hp].
+      unfold PR. rewrite B1 at 3 4 5 6 7 8 9. cbn [pr set_bf used_features proc_timeout deferred st].
+      repeat split; try assumption; try reflexivity; try congruence. rewrite B3. cbn. congruence.
+    + (* KIgnore *)
+      cbn beta iota zeta in Hs. fold (popS s rest) in Hs.
+      destruct (handle_received_data fuel c (popS s rest)) as [[s3 it3] r3] eqn:E3. inversion Hs; subst; clear Hs.
+      destruct (after_nocommit s rest P10 P11) as (A1 & A2 & A3 & A4 & A5 & A6).
+      eapply Post_compose with (s2 := popS s rest) (m2 := set_m_rx m rest) (ek := []) (newk := []);
+        [unfold sframe; repeat split; reflexivity | unfold mframe; repeat split; reflexivity | rewrite app_nil_r; exact A6 | constructor
+        | left; split; reflexivity | left; reflexivity | ].
+      rewrite app_nil_r. eapply IH; [|exact E3|exact Hp].
+      unfold PR. repeat split; try assumption; try reflexivity; try (rewrite ?A3; cbn; congruence).
+
+Qed.
+End Sim.
